@@ -89,7 +89,17 @@ def check_case(run, case, tier='quick'):
         ks = list(range(len(U))) if len(U) <= 400 else sorted(rng.sample(range(len(U)), 40))
         for k in ks:
             px = probs[k]
-            q2 = PcfgQueue(pcfg, save_cfg(px))
+            # the state the tool itself writes at this point: a fresh queue popped k+1 times (the last pop is the one noticed with the quit flag up: saved,
+            # not generated), its own update_save_config(), round-tripped through the text of a .sav file
+            q1 = PcfgQueue(pcfg)
+            for _ in range(k + 1):
+                q1.next()
+            c1 = configparser.ConfigParser(); c1.add_section('guessing_info')
+            q1.update_save_config(c1)
+            buf = io.StringIO(); c1.write(buf)
+            cfg = configparser.ConfigParser(); cfg.read_string(buf.getvalue())
+            run.ev('save_states_written_by_the_queue')
+            q2 = PcfgQueue(pcfg, cfg)
             R = []
             while True:
                 it = q2.next()
